@@ -230,10 +230,25 @@ class Evaluator:
         return None
 
     def _prim_generalize(self, fn):
-        src = ast.unparse(fn.node)
-        need = ['oper = Operator(self.generalizers.get(oper, oper))', 'return reduce(getattr(self, oper.name), it, *args, **kw)']
-        if not all(x in src for x in need) or len([s for s in fn.node.body if not (isinstance(s, ast.Expr) and isinstance(s.value, ast.Constant))]) != 2:
-            raise Unsupported(f'{self.m.floc(fn)}: TruthFunction.generalize not in the recognised form')
+        # the primitive below stands for `reduce(getattr(self, Operator(generalizers.get(oper, oper)).name), it, *initial)`;
+        # that reading is confirmed by folding the definition on concrete mock cases (not by matching its text)
+        from .minieval import Interp as _MI, Obj as _MO, Raised as _MR
+        import functools as _ft
+
+        def OperatorM(v):
+            if v not in ('OpX', 'OpY'):
+                raise ValueError(v)
+            return _MO(v, name=v)
+        tfm = _MO('truth-function', generalizers={'QA': 'OpX'}, OpX=lambda a, b: ('X', a, b), OpY=lambda a, b: ('Y', a, b))
+        mi = _MI(dict(Operator=OperatorM, reduce=_ft.reduce), where='models/__init__.py TruthFunction.generalize')
+        for oper, vals, init in (('QA', [1, 2, 3], ()), ('OpY', [1, 2], (0,)), ('OpY', [], (9,)), ('OpX', [5], ())):
+            want = _ft.reduce(getattr(tfm, {'QA': 'OpX'}.get(oper, oper)), vals, *init)
+            try:
+                got = mi.call(fn.node, [tfm, oper, iter(vals), *init])
+            except (_MR, TypeError, ValueError, AttributeError, KeyError) as e:
+                got = f'raises {type(e).__name__}'
+            if got != want:
+                raise Unsupported(f'{self.m.floc(fn)}: TruthFunction.generalize({oper}, {vals}, *{init}) folds to {got!r}, not the reduce over the generalizer operator {want!r}')
 
         def prim(env):
             params = [x.arg for x in fn.node.args.posonlyargs + fn.node.args.args]
